@@ -253,7 +253,27 @@ Json EngineGen::generate(uint64_t seed, const runner::GenOptions& opt, const Eng
     }
   }
   if (builds < 2) addBuild();
+  if (opt.property == "C06") {
+    // the compared build is the last one: make it do real work in most runs
+    if (rng.chance(500)) hist.push(Json::obj().set("op", "restart"));
+    else if (rng.chance(600)) hist.push(Json::obj().set("op", "set").set("k", leaves[rng.below(leaves.size())]).set("v", util::hex(spellValue(rng, vcounter++, valStyle))));
+    Json op = Json::obj();
+    op.set("op", "build").set("k", mainTarget);
+    hist.push(op);
+    builds++;
+  }
   plan.set("history", hist);
+  if (opt.property == "C04") {
+    // which build's VFS calls are enumerated as kill points (later builds carry more state)
+    int b = builds <= 1 ? 1 : (int)rng.range(rng.chance(700) ? 2 : 1, builds);
+    plan.set("kill", Json::obj().set("build", b).set("n", -1));
+  }
+  if (opt.property == "C06") {
+    Json seeds = Json::arr();
+    int ns = opt.tier == "thorough" ? 12 : 4;
+    for (int i = 0; i < ns; i++) seeds.push(Json::num((int64_t)(rng.next() >> 2)));
+    plan.set("sched_seeds", seeds);
+  }
   return plan;
 }
 
@@ -418,13 +438,30 @@ struct Run : public BuildEngineDelegate, public basic::ExecutionQueueDelegate {
     std::string result;
     std::set<std::string> executed;
     std::map<std::string, int> reason;
+    uint64_t evhash = 0;                        // events of the build except rule lookups (C03)
+    std::multiset<std::string> provides;        // task|input|value (C06)
+    bool cancelled = false, cycle = false, error = false;
     bool operator==(const BuildSummary& o) const {
       return target == o.target && ok == o.ok && result == o.result && executed == o.executed && reason == o.reason;
     }
   };
   std::vector<BuildSummary> summaries;
 
+  // crash simulation (C04)
+  int killBuild = 0;            // 1-based build number whose VFS calls are kill points (0: none)
+  int64_t killAt = -1;          // kill before this VFS call of that build (-1: dry run, only count)
+  int64_t vfsInWindow = 0;      // VFS calls counted in the window
+  bool windowOpen = false;
+  bool killed = false;
+  int64_t firstWriteAt = -1;    // index of the first write call in the window
+  std::unique_ptr<simfs::FS> survivor;
+  std::map<uint64_t, int> epochBuild;
+  bool crashed = false;
+  void crashAndRecover();
+
   // events
+  util::Hasher buildEvh;
+  std::multiset<std::string> buildProvides;
   util::Hasher evh;
   std::vector<Event> events;
   uint64_t seq = 0;
@@ -443,12 +480,22 @@ struct Run : public BuildEngineDelegate, public basic::ExecutionQueueDelegate {
 
   // ---- helpers
   void ev(int kind, const std::string& key, const std::string& a = "", int64_t n = 0) {
+    if (events.size() < 20000) events.push_back({kind, buildNo, key, a, n});
+    // The order in which a cancelled build destroys its tasks is the iteration order of a
+    // pointer-keyed hash map inside the engine (heap-layout dependent, semantically irrelevant):
+    // destruction events are logged but kept out of the hashes.
+    if (kind == EV_TASK_DESTROYED) return;
     evh.u64((uint64_t)kind);
     evh.u64((uint64_t)buildNo);
     evh.str(key);
     evh.str(a);
     evh.u64((uint64_t)n);
-    if (events.size() < 20000) events.push_back({kind, buildNo, key, a, n});
+    if (kind != EV_LOOKUP) {
+      buildEvh.u64((uint64_t)kind);
+      buildEvh.str(key);
+      buildEvh.str(a);
+      buildEvh.u64((uint64_t)n);
+    }
     seq++;
   }
 
@@ -465,7 +512,13 @@ struct Run : public BuildEngineDelegate, public basic::ExecutionQueueDelegate {
     return o;
   }
 
-  void viol(const std::string& clause, const std::string& detail) {
+  void viol(const std::string& clauseIn, const std::string& detail) {
+    std::string clause = clauseIn;
+    // the continuation after a simulated crash is judged by C01's oracle but belongs to C04
+    if (property == "C04" && crashed) {
+      if (clause == "C01.1" || clause == "C01.2") clause = "C04.5";
+      else if (clause == "C03.2") clause = "C04.4";
+    }
     bool mine = clause.compare(0, property.size() + 1, property + ".") == 0;
     if (mine) {
       if (!verdict) {
@@ -612,9 +665,29 @@ void Run::doCancel(bool engineThread) {
   cbAtCancel = cbCount;
 }
 
+// An execution queue without threads: jobs run inline.  Used by the canonical (synchronous) variants so
+// that they contain no scheduling decision at all.
+class InlineQueue : public basic::ExecutionQueue {
+  struct Ctx : public basic::QueueJobContext {
+    unsigned laneID() const override { return 0; }
+  };
+public:
+  explicit InlineQueue(basic::ExecutionQueueDelegate& d) : ExecutionQueue(d) {}
+  void addJob(basic::QueueJob job, basic::QueueJobPriority) override {
+    Ctx c;
+    job.execute(&c);
+  }
+  void cancelAllJobs() override {}
+  void executeProcess(basic::QueueJobContext*, ArrayRef<StringRef>, ArrayRef<std::pair<StringRef, StringRef>>, basic::ProcessAttributes,
+                      llvm::Optional<basic::ProcessCompletionFn> completionFn, basic::ProcessDelegate*) override {
+    if (completionFn.hasValue()) completionFn.getValue()(basic::ProcessResult::makeFailed());
+  }
+};
+
 std::unique_ptr<basic::ExecutionQueue> Run::createExecutionQueue() {
   engineCallback("createExecutionQueue");
   static const char* env[] = {nullptr};
+  if (queueKind == "inline") return std::unique_ptr<basic::ExecutionQueue>(new InlineQueue(*this));
   sim::set_child_role("queue");
   struct Clear { ~Clear() { sim::set_child_role(""); } } clear;
   if (queueKind == "serial") return basic::createSerialQueue(*this, env);
@@ -883,6 +956,7 @@ void SimTask::providePriorValue(TaskInterface, const ValueType& value) {
 void SimTask::provideValue(TaskInterface ti, uintptr_t inputID, const KeyType& key, const ValueType& value) {
   std::string v = toStr(value);
   run->ev(EV_PROVIDE, st->key, key.str() + "=" + v, (int64_t)inputID);
+  run->buildProvides.insert(st->key + "|" + key.str() + "|" + v);
   st->anyProvide = true;
   int k = (int)inputID;
   auto it = st->outstanding.find(k);
@@ -1033,6 +1107,10 @@ void Run::load() {
   clientVersion = (uint32_t)cfg->getn("client_version", 1);
   forceSync = cfg->getb("force_sync");
   syncBeforeBuild = (int)cfg->getn("sync_before_build", 0);
+  if (const Json* kj = plan.find("kill")) {
+    killBuild = (int)kj->getn("build");
+    killAt = kj->getn("n", -1);
+  }
   restartEveryBuild = cfg->getb("restart_every_build");
   dropRestarts = cfg->getb("drop_restarts");
   for (auto& j : plan.geta("rules")) {
@@ -1146,11 +1224,38 @@ void Run::opBuild(const Json& op) {
   const RuleSpec* target = prog.get(k);
   if (!target) return;
   if (restartEveryBuild && buildNo > 0) doRestart();
+  bool killWindow = killBuild && buildNo + 1 == killBuild;
+  std::set<std::string> invalidSnapshot = invalidOnce;
+  if (killWindow) {
+    windowOpen = true;
+    vfsInWindow = 0;
+    simvfs::set_hook([this](const simvfs::Call& c) -> int {
+      if (!windowOpen) return 0;
+      int64_t idx = vfsInWindow++;
+      if (firstWriteAt < 0 && !strcmp(c.op, "write")) firstWriteAt = idx;
+      if (idx == killAt && !killed) {
+        survivor = simfs::fs().clone();
+        killed = true;
+      }
+      return 0;
+    });
+  }
+  auto closeWindow = [&]() {
+    if (!killWindow) return;
+    if (!killed && killAt == vfsInWindow) {
+      survivor = simfs::fs().clone();
+      killed = true;
+    }
+    windowOpen = false;
+    simvfs::set_hook(nullptr);
+  };
   ensureEngine();
   buildNo++;
   targetKey = target->key;
   targetId = k;
   cbCount = 0;
+  buildEvh = util::Hasher();
+  buildProvides.clear();
   createCount.clear();
   reasons.clear();
   invalidReported.clear();
@@ -1175,11 +1280,17 @@ void Run::opBuild(const Json& op) {
     s.target = targetKey;
     summaries.push_back(s);
     dropEngine();
+    closeWindow();
+    if (killed) {
+      invalidOnce = invalidSnapshot;
+      crashAndRecover();
+    }
     return;
   }
   if (prevBuildCancelled || engine->isCancelled()) engine->resetForBuild();
   prevBuildCancelled = false;
   engineEpoch = engine->getCurrentEpoch() + 1;
+  epochBuild[engineEpoch] = buildNo;
   ev(EV_BUILD_BEGIN, targetKey);
   inBuild = true;
   ctr()["builds"]++;
@@ -1205,7 +1316,139 @@ void Run::opBuild(const Json& op) {
   cancelAbort = true;
   cancelGo = true;
   if (!cancelDone) sim::block_until([this]() { return cancelDone; }, 0, "join-canceller");
+  if (killWindow) {
+    // the connection is closed by the engine at the end of build(); the window ends here
+    closeWindow();
+    if (killed) {
+      ev(EV_BUILD_END, targetKey, "killed", killAt);
+      invalidOnce = invalidSnapshot;
+      crashAndRecover();
+      return;
+    }
+  }
   afterBuild(copy);
+}
+
+// The process "died" at the kill point: the surviving disk image replaces the file system, the doomed
+// engine (which was allowed to finish on the original) is discarded, and the next process starts.
+void Run::crashAndRecover() {
+  dropEngine();
+  simfs::setFS(std::move(survivor));
+  crashed = true;
+  ctr()["crashes"]++;
+  if (firstWriteAt >= 0 && killAt > firstWriteAt) ctr()["kill_after_first_db_write"]++;
+  std::string when = "after a kill before VFS call " + std::to_string(killAt) + " of build " + std::to_string(buildNo);
+
+  // 1. the next process opens the image
+  std::string err;
+  auto db = createSQLiteBuildDB(dbPath, clientVersion, /*recreate=*/true, &err);
+  ReadbackDelegate del;
+  db->attachDelegate(&del);
+  bool ok = false;
+  uint64_t iteration = db->getCurrentEpoch(&ok, &err);
+  if (!ok) {
+    viol("C04.1", "database cannot be opened " + when + ": " + err);
+    dbCommitted.clear();
+    dbv.clear();
+    mem.clear();
+    return;
+  }
+  // 2. raw consistency of ids (before the API maps them)
+  {
+    sqlite3* h = nullptr;
+    if (sqlite3_open(dbPath.c_str(), &h) == SQLITE_OK) {
+      std::set<int64_t> ids;
+      sqlite3_stmt* st = nullptr;
+      if (sqlite3_prepare_v2(h, "SELECT id FROM key_names", -1, &st, nullptr) == SQLITE_OK) {
+        while (sqlite3_step(st) == SQLITE_ROW) ids.insert(sqlite3_column_int64(st, 0));
+        sqlite3_finalize(st);
+        if (sqlite3_prepare_v2(h, "SELECT key_id, built_at, computed_at, dependencies FROM rule_results", -1, &st, nullptr) == SQLITE_OK) {
+          while (sqlite3_step(st) == SQLITE_ROW) {
+            int64_t kid = sqlite3_column_int64(st, 0);
+            uint64_t b = (uint64_t)sqlite3_column_int64(st, 1), c = (uint64_t)sqlite3_column_int64(st, 2);
+            if (!ids.count(kid)) viol("C04.3", "stored result refers to key id " + std::to_string(kid) + " which is not stored " + when);
+            if (b > iteration || c > iteration)
+              viol("C04.2", "stored epoch " + std::to_string(iteration) + " is smaller than a stored result's epochs (" + std::to_string(b) + "," +
+                                std::to_string(c) + ") " + when);
+            int nb = sqlite3_column_bytes(st, 3);
+            const unsigned char* blob = (const unsigned char*)sqlite3_column_blob(st, 3);
+            for (int i = 0; i + 8 <= nb; i += 8) {
+              uint64_t raw;
+              memcpy(&raw, blob + i, 8);
+              if (!ids.count((int64_t)(raw >> 2)))
+                viol("C04.3", "stored dependency refers to key id " + std::to_string(raw >> 2) + " which is not stored " + when);
+            }
+          }
+          sqlite3_finalize(st);
+        }
+      }
+      sqlite3_close(h);
+    }
+  }
+  // 3. every stored result is one some task produced, with the dependency list of that same execution
+  std::vector<KeyType> keys;
+  std::vector<Result> results;
+  if (!db->getKeysWithResult(keys, results, &err)) {
+    viol("C04.1", "database cannot be read " + when + ": " + err);
+    dbCommitted.clear();
+    dbv.clear();
+    mem.clear();
+    return;
+  }
+  auto canon = [](std::vector<DepRec> v) {
+    std::sort(v.begin(), v.end(), [](const DepRec& a, const DepRec& b) {
+      if (a.key != b.key) return a.key < b.key;
+      if (a.orderOnly != b.orderOnly) return a.orderOnly < b.orderOnly;
+      return a.singleUse < b.singleUse;
+    });
+    return v;
+  };
+  std::map<std::string, DbRow> image;
+  for (size_t i = 0; i < keys.size(); i++) {
+    const std::string& k = keys[i].str();
+    const Result& r = results[i];
+    DbRow row;
+    row.value = toStr(r.value);
+    row.sig = r.signature.value;
+    row.builtEpoch = r.builtAt;
+    row.computedEpoch = r.computedAt;
+    for (auto d : r.dependencies) row.deps.push_back({del.getKeyForID(d.keyID).str(), d.orderOnly, d.singleUse});
+    row.builtBuild = epochBuild.count(row.builtEpoch) ? epochBuild[row.builtEpoch] : 0;
+    row.changedBuild = epochBuild.count(row.computedEpoch) ? epochBuild[row.computedEpoch] : 0;
+    bool match = false;
+    for (auto& e : allExecs[k])
+      if (e.value == row.value && e.sig == row.sig && e.builtEpoch == row.builtEpoch && e.computedEpoch == row.computedEpoch &&
+          canon(e.deps) == canon(row.deps))
+        match = true;
+    if (!match)
+      viol("C04.4", "stored result of " + util::printable(k) + " (value " + util::printable(row.value) + ", epochs " + std::to_string(row.builtEpoch) + "/" +
+                        std::to_string(row.computedEpoch) + ") is not a result any task produced together with that dependency list " + when);
+    if (r.builtAt > iteration || r.computedAt > iteration)
+      viol("C04.2", "stored epoch " + std::to_string(iteration) + " is smaller than the epochs of " + util::printable(k) + " " + when);
+    image[k] = row;
+  }
+  if (iteration == engineEpoch) ctr()["kill_image_post_commit"]++;
+  else ctr()["kill_image_pre_commit"]++;
+  db.reset();
+  // 4. the next process continues from what the image holds
+  dbCommitted = image;
+  dbv = image;
+  std::map<std::string, KeyShadow> nm;
+  for (auto& e : dbCommitted) {
+    KeyShadow sh;
+    sh.hasExec = sh.hasValue = true;
+    sh.value = e.second.value;
+    sh.sig = e.second.sig;
+    sh.deps = e.second.deps;
+    sh.changedIn = e.second.changedBuild;
+    sh.validatedIn = e.second.builtBuild;
+    sh.changeEpoch = e.second.computedEpoch;
+    nm[e.first] = sh;
+  }
+  mem.swap(nm);
+  changedSince = true;
+  prevBuildCancelled = false;
+  openTasks = 0;
 }
 
 void Run::doRestart() {
@@ -1247,6 +1490,11 @@ void Run::afterBuild(const ValueType& result) {
   s.result = got;
   for (auto& c : createCount) s.executed.insert(c.first);
   for (auto& r : reasons) s.reason[r.first] = r.second.first;
+  s.evhash = buildEvh.get();
+  s.provides = buildProvides;
+  s.cancelled = cancelIssued;
+  s.cycle = cycleReported;
+  s.error = errorReported;
 
   if (cancelIssued) {
     ctr()["builds_cancelled"]++;
@@ -1475,10 +1723,25 @@ public:
     return EngineGen::generate(seed, opt, featuresFor(property, opt));
   }
 
-  RunResult execute(const Json& plan) override {
+  struct Outcome {
+    RunResult res;
+    std::vector<Run::BuildSummary> summaries;
+    int64_t vfsInWindow = 0;
+  };
+
+  static Json withConfig(const Json& plan, const std::vector<std::pair<std::string, Json>>& over) {
+    Json p = plan;
+    Json cfg = Json::obj();
+    if (const Json* c = plan.find("config")) cfg = *c;
+    for (auto& e : over) cfg.set(e.first, e.second);
+    p.set("config", cfg);
+    return p;
+  }
+
+  // one complete simulated execution of a plan (its own file system, clock and scheduler)
+  Outcome runOnce(const Json& plan, bool useDecisions) {
     Run run(plan);
     g_run = &run;
-    // fresh world
     simfs::setFS(std::unique_ptr<simfs::FS>(new simfs::FS()));
     simvfs::reset_stats();
     simvfs::reset_counter();
@@ -1492,7 +1755,7 @@ public:
       sc.pctDepth = (int)cfg->getn("pct", 2);
     }
     simvfs::set_random_seed(sc.seed);
-    if (plan.find("decisions")) {
+    if (useDecisions && plan.find("decisions")) {
       sc.useReplay = true;
       for (auto& d : plan.geta("decisions")) sc.replay.push_back((uint32_t)d.n);
     }
@@ -1503,8 +1766,212 @@ public:
     run.res.simtime_us = (sim::now_ns() - t0) / 1000;
     run.finishResult();
     sim::end();
+    simvfs::set_hook(nullptr);
     g_run = nullptr;
-    return run.res;
+    Outcome o;
+    o.res = run.res;
+    o.summaries = run.summaries;
+    o.vfsInWindow = run.vfsInWindow;
+    return o;
+  }
+
+  static void accumulate(RunResult& into, const RunResult& r) {
+    for (auto& e : r.counters) into.counters[e.first] += e.second;
+    for (auto& i : r.incidental)
+      if (std::find(into.incidental.begin(), into.incidental.end(), i) == into.incidental.end()) into.incidental.push_back(i);
+    into.steps += r.steps;
+    into.simtime_us += r.simtime_us;
+    util::Hasher h;
+    h.u64(into.evhash);
+    h.u64(r.evhash);
+    into.evhash = h.get();
+    util::Hasher hi;
+    hi.u64(into.ihash);
+    hi.u64(r.ihash);
+    into.ihash = hi.get();
+    if (r.nontrivial) into.nontrivial = true;
+    if (into.sample.empty()) into.sample = r.sample;
+    if (into.shape == 0) into.shape = r.shape;
+  }
+
+  static std::string describe(const Run::BuildSummary& s) {
+    std::string o = "target=" + util::printable(s.target, 16) + " ok=" + (s.ok ? "1" : "0") + " result=" + util::printable(s.result, 16) + " executed={";
+    for (auto& k : s.executed) {
+      o += util::printable(k, 12);
+      auto it = s.reason.find(k);
+      if (it != s.reason.end()) o += ":" + std::to_string(it->second);
+      o += " ";
+    }
+    return o + "}";
+  }
+
+  // ---- C03: the same history in one engine, with restarts as generated, and with a restart before every build
+  RunResult executeC03(const Json& plan) {
+    std::vector<std::pair<std::string, Json>> canon = {{"force_sync", Json::boolean(true)}, {"queue", Json::str("inline")},
+                                                       {"db", Json::boolean(true)}};
+    auto a = canon, b = canon, c = canon;
+    b.push_back({"restart_every_build", Json::boolean(true)});
+    c.push_back({"drop_restarts", Json::boolean(true)});
+    RunResult total;
+    Outcome oa = runOnce(withConfig(plan, a), false);
+    if (oa.res.failed()) return oa.res;
+    accumulate(total, oa.res);
+    Outcome ob = runOnce(withConfig(plan, b), false);
+    if (ob.res.failed()) {
+      ob.res.detail = "(variant: restart before every build)\n" + ob.res.detail;
+      return ob.res;
+    }
+    accumulate(total, ob.res);
+    Outcome oc = runOnce(withConfig(plan, c), false);
+    if (oc.res.failed()) {
+      oc.res.detail = "(variant: single engine, no restart)\n" + oc.res.detail;
+      return oc.res;
+    }
+    accumulate(total, oc.res);
+    total.nontrivial = oa.res.nontrivial || ob.res.nontrivial;
+    total.counters["differential_histories"]++;
+    // resig/reprog imply a restart in every variant, so "single engine" means: no restart that the
+    // history does not force.  Compare per build.
+    auto cmp = [&](const Outcome& x, const Outcome& y, const char* xn, const char* yn) {
+      if (total.failed()) return;
+      if (x.summaries.size() != y.summaries.size()) {
+        total.status = "viol";
+        total.clause = "C03.1";
+        total.detail = std::string("number of builds differs between ") + xn + " and " + yn;
+        return;
+      }
+      for (size_t i = 0; i < x.summaries.size(); i++) {
+        const auto& p = x.summaries[i];
+        const auto& q = y.summaries[i];
+        std::string what;
+        if (p.ok != q.ok || p.result != q.result) what = "result";
+        else if (p.executed != q.executed) what = "set of executed rules";
+        else if (p.reason != q.reason) what = "reported reasons";
+        else if (p.evhash != q.evhash) what = "sequence of engine callbacks (scan/request order)";
+        if (!what.empty()) {
+          total.status = "viol";
+          total.clause = "C03.1";
+          total.detail = "build " + std::to_string(i + 1) + ": " + what + " differs between '" + xn + "' and '" + yn + "'\n  " + xn + ": " +
+                         describe(p) + "\n  " + yn + ": " + describe(q);
+          return;
+        }
+        total.counters["differential_builds_compared"]++;
+      }
+    };
+    cmp(oc, ob, "single engine", "restart before every build");
+    cmp(oc, oa, "single engine", "restarts as generated");
+    return total;
+  }
+
+  // ---- C04: every VFS call of one build is a kill point
+  RunResult executeC04(const Json& plan) {
+    std::vector<std::pair<std::string, Json>> canon = {{"force_sync", Json::boolean(true)}, {"queue", Json::str("inline")},
+                                                       {"db", Json::boolean(true)}};
+    Json base = withConfig(plan, canon);
+    int nBuilds = 0;
+    for (auto& op : plan.geta("history"))
+      if (op.gets("op") == "build") nBuilds++;
+    int build = 1;
+    int64_t n = -1;
+    if (const Json* k = plan.find("kill")) {
+      build = (int)k->getn("build", 1);
+      n = k->getn("n", -1);
+    }
+    if (build > nBuilds) build = nBuilds;
+    if (build < 1) build = 1;
+    auto withKill = [&](int64_t at) {
+      Json p = base;
+      p.set("kill", Json::obj().set("build", build).set("n", at));
+      return p;
+    };
+    if (n >= 0) {
+      Outcome o = runOnce(withKill(n), false);
+      o.res.counters["kill_points"]++;
+      return o.res;
+    }
+    RunResult total;
+    Outcome dry = runOnce(withKill(-1), false);
+    if (dry.res.failed()) return dry.res;
+    accumulate(total, dry.res);
+    int64_t N = dry.vfsInWindow;
+    total.counters["kill_histories"]++;
+    total.counters["kill_window_vfs_calls"] += (uint64_t)N;
+    for (int64_t at = 0; at <= N; at++) {
+      Outcome o = runOnce(withKill(at), false);
+      total.counters["kill_points"]++;
+      if (o.res.failed()) {
+        o.res.patch = Json::obj().set("kill", Json::obj().set("build", build).set("n", at));
+        o.res.detail = "(kill before VFS call " + std::to_string(at) + " of " + std::to_string(N) + " in build " + std::to_string(build) + ")\n" + o.res.detail;
+        return o.res;
+      }
+      accumulate(total, o.res);
+    }
+    total.nontrivial = total.counters["kill_after_first_db_write"] > 0;
+    return total;
+  }
+
+  // ---- C06: the last build under several schedules, compared with its canonical execution
+  RunResult executeC06(const Json& plan) {
+    int nBuilds = 0;
+    for (auto& op : plan.geta("history"))
+      if (op.gets("op") == "build") nBuilds++;
+    RunResult total;
+    Outcome base = runOnce(withConfig(plan, {{"force_sync", Json::boolean(true)}, {"queue", Json::str("inline")}}), false);
+    if (base.res.failed()) {
+      base.res.detail = "(canonical synchronous execution)\n" + base.res.detail;
+      return base.res;
+    }
+    accumulate(total, base.res);
+    total.nontrivial = false;
+    std::vector<int64_t> seeds;
+    for (auto& sj : plan.geta("sched_seeds")) seeds.push_back(sj.n);
+    if (seeds.empty()) seeds.push_back(plan.find("config") ? plan.find("config")->getn("sched_seed", 1) : 1);
+    static const char* queues[] = {"serial", "lane1", "lane2", "lane4", "lane3"};
+    for (size_t vi = 0; vi < seeds.size(); vi++) {
+      int64_t sd = seeds[vi];
+      std::vector<std::pair<std::string, Json>> over = {{"sync_before_build", Json::num(nBuilds - 1)}, {"sched_seed", Json::num(sd)},
+                                                        {"policy", Json::num((sd >> 3) % 3)}, {"queue", Json::str(queues[(sd >> 7) % 5])}};
+      static const int sticky[] = {500, 900, 990};
+      over.push_back({"sticky", Json::num(sticky[(sd >> 11) % 3])});
+      Outcome o = runOnce(withConfig(plan, over), seeds.size() == 1);
+      Json patch = Json::obj();
+      Json one = Json::arr();
+      one.push(Json::num(sd));
+      patch.set("sched_seeds", one);
+      if (o.res.failed()) {
+        o.res.patch = patch;
+        return o.res;
+      }
+      bool nt = o.res.nontrivial;
+      accumulate(total, o.res);
+      if (nt) total.nontrivial = true;
+      total.decisions = o.res.decisions;
+      total.counters["schedules_compared"]++;
+      if (base.summaries.empty() || o.summaries.size() != base.summaries.size()) continue;
+      const auto& p = base.summaries.back();
+      const auto& q = o.summaries.back();
+      std::string what;
+      if (p.ok != q.ok || p.result != q.result) what = "result";
+      else if (p.executed != q.executed) what = "set of executed rules";
+      else if (p.provides != q.provides) what = "values provided to tasks";
+      if (!what.empty()) {
+        total.status = "viol";
+        total.clause = "C06.1";
+        total.patch = patch;
+        total.detail = "last build: " + what + " differs between the canonical execution and schedule seed " + std::to_string(sd) + "\n  canonical: " +
+                       describe(p) + "\n  scheduled: " + describe(q) + "\n" + o.res.detail;
+        return total;
+      }
+    }
+    return total;
+  }
+
+  RunResult execute(const Json& plan) override {
+    std::string prop = plan.gets("property");
+    if (prop == "C03" && plan.gets("scenario", "diff") == "diff") return executeC03(plan);
+    if (prop == "C04") return executeC04(plan);
+    if (prop == "C06") return executeC06(plan);
+    return runOnce(plan, true).res;
   }
 };
 
@@ -1530,6 +1997,7 @@ EngineFeatures featuresFor(const std::string& property, const runner::GenOptions
     f.asyncPermille = 800;
   } else if (property == "C06") {
     f.asyncPermille = 1000;
+    f.dbPermille = 400;
   } else if (property == "C07") {
     f.cycles = true;
     f.cyclePermille = 700;
